@@ -31,10 +31,12 @@ SPECFUNCS = {
     'rx_item_ok': (['s', 'it'], 'it.transfer_id is not None and it.file is not None'),
     'in_pend': (['s', 'it'], 'contains(s._tx_pend_start, it)'),
     # --- the idle predicate, restated from the property text (C18/C09) -----------------------------
+    # (nothing in flight at either buffer layer: also no octets that were taken from the message buffer but are not yet
+    # written to the socket -- C09 T3; the code looked only at the message buffers until fix d1b9697)
     'idle_spec': (['s'], 'length(s._Messenger__rx_buf) == 0 and length(s._Messenger__tx_buf) == 0 and '
+                         'length(s._Connection__tx_buf) == 0 and '
                          's._rx_tmp is None and s._tx_tmp is None and length(s._tx_pend_start) == 0 and '
                          'is_empty_set(s._tx_pend_ack)'),
-    # nothing in flight at either buffer layer (C09 T3)
     'drained': (['s'], 'idle_spec(s) and length(s._Connection__tx_buf) == 0'),
     # effect of _process_queue_trigger on the glib source tables (quantifier free)
     'trigger_effect': (['s'],
